@@ -59,6 +59,45 @@ def no_narrowing(ck, rule, modules=("src.parsers.cmap_reader", "src.parsers.bion
                     ck.violation(rule, short(f) + ":narrow-type", where(f, node), "a narrow numeric type is named in the reader chain: "
                                  "coordinates above 2^24 read through it are off by one or two base pairs", found=str(txt),
                                  required="default (64-bit) dtypes")
+    # ... and in the statements of these modules that belong to no function: a type table kept as a class attribute or a module
+    # constant and handed to the reader by a constructor default (the two-site form: the table here, `dtype=` built from an
+    # argument there - neither function names a narrow type)
+    n_outer = 0
+    narrow_ints = []
+    n_float_narrow = [0]
+    for mname in modules:
+        m = p.modules.get(mname)
+        if m is None:
+            continue
+
+        def outer_nodes(node):
+            for ch in ast.iter_child_nodes(node):
+                if isinstance(ch, (ast.FunctionDef, ast.AsyncFunctionDef, ast.Lambda)):
+                    # defaults and decorators are evaluated outside the body
+                    if not isinstance(ch, ast.Lambda):
+                        for d in list(ch.args.defaults) + [x for x in ch.args.kw_defaults if x is not None] + list(ch.decorator_list):
+                            yield d
+                            yield from ast.walk(d)
+                    continue
+                yield ch
+                yield from outer_nodes(ch)
+        for node in outer_nodes(m.tree):
+            n_outer += 1
+            if isinstance(node, (ast.Attribute, ast.Name, ast.Constant)):
+                txt = node.attr if isinstance(node, ast.Attribute) else node.id if isinstance(node, ast.Name) else node.value
+                if isinstance(txt, str) and txt in NARROW and "float" not in txt and txt not in ("half", "single"):
+                    narrow_ints.append(f"{m.relpath}:{getattr(node, 'lineno', 1)}: {txt}")      # exact for small counts and channels
+                elif isinstance(txt, str) and txt in NARROW:
+                    n_float_narrow[0] += 1
+                    ck.violation(rule, f"{mname.split('.')[-1]}:class-or-module-level:narrow-type", f"{m.relpath}:{getattr(node, 'lineno', 1)}",
+                                 "a narrow numeric type is named in a class-level or module-level table of the reader chain: whatever "
+                                 "is read through it is rounded to that type (a float32 keeps 24 bits - 942332.1 comes back as "
+                                 "942332.125, coordinates above 2^24 move by one or two base pairs)", found=str(txt),
+                                 required="default (64-bit) dtypes")
+    if narrow_ints and not n_float_narrow[0]:
+        raise AnalysisError(f"{narrow_ints[0]}: a narrow integer type in a class-level / module-level table of the reader chain: which "
+                            f"columns are read through it is not decided here (exact for a channel number, wrong for a coordinate)")
+    ck.floor(f"{rule} class-level / module-level nodes inspected in the reader chain", n_outer, 10)
     ck.floor(f"{rule} calls inspected in the reader chain", n, floor)
     ck.ok(rule, "reader-chain:precision", fns[0].where if fns else "", f"{n} calls in the CMAP reader chain: no narrowing conversion of coordinates")
 
